@@ -28,11 +28,12 @@
        the class of volumes of this model.  (What Assemble does to parsed files is the
        subject of C01/C06, not of tighten_me, which only prepends a padding.)
      * The extended FV header (it only moves DataOffset, which matters for file parsing only).
-     * sort.Slice: Go uses insertion sort (stable) for up to 12 elements — [sort_by] below is
-       that loop — and pdqsort above 12, which may order regions of EQUAL Base differently.
+     * sort.Slice: Go uses insertion sort (stable) for up to 12 elements - [sort_by] below is
+       that loop - and pdqsort above 12, which may order regions of EQUAL Base differently.
        During parsing equal bases always end in the "overlapping regions" error whatever the
        order.  During Assemble two regions have equal Base only when tighten_me emptied the ME
-       region completely (no partition table, region entirely erased).
+       region completely (no partition table, region entirely erased); the list is then
+       already sorted, and the differential run (13-15 regions) agrees with the stable sort.
      * JSON/extract metadata (ExtractPath), log output, the 16 MiB warning.
      * Pointer identity: a declared region's FRegion points into IFD.Region.FlashRegions[i];
        here that is the constructor ([RBios] -> slot 0, [RME] -> slot 1, [RRaw i] -> slot i),
